@@ -18,7 +18,8 @@ MANIFEST = dict(
 LEVEL = "model_checking"
 RULE = ("every (state, operation) pair of the reference machine over the tier's pools (state installed by one SetPageSettings "
         "call in a new document, then every operation of the pool: the nine setters with valid / documented-invalid / open "
-        "arguments, GetPageSettings, save+reopen), plus seeded random sequences of the same operations; after every step "
+        "arguments, SetPageSettings(DefaultPageSettings()), GetPageSettings, save+reopen, header/footer/paragraph calls as "
+        "bystanders), plus seeded random sequences and (state, 3 operations) samples of the same operations; after every step "
         "the accessor view, the saved sectPr and the accessor view of the reopened bytes are judged by PageSet_Trace.tla")
 
 TRACE = ("PageSet_Trace.tla", "PageSet_Trace.cfg")
